@@ -797,7 +797,8 @@ def execute(plan, tape):
             baton = seams.Baton(tape, len(plan['sessions']))
             ctl.baton = baton
             ctl.yield_num, ctl.yield_den = plan['yield']
-            baton.run([body] * len(plan['sessions']))
+            with seams.sim_locks():
+                baton.run([body] * len(plan['sessions']))
             ctl.baton = None
             for e in baton.errors:
                 if e is not None:
@@ -831,6 +832,7 @@ def execute(plan, tape):
         res.stats['baton_switches'] += baton.switches
         res.stats['probe.baton_switch_inside_call'] += 1 if baton.switches_inside_call else 0
         res.stats['baton_switches_inside_call'] += baton.switches_inside_call
+        res.stats['baton_yields_on_blocked_lock'] += baton.lock_yields
     res.stats['fault.interrupt'] += ctl.fired
     res.stats['fault.natural_failure'] += sum(1 for h in hist if len(h) == 4 and h[3] == 'raise')
     res.stats['fault.interleaving'] += 1 if baton is not None else 0
